@@ -268,7 +268,7 @@ func runC20(c *Ctx) {
 		// passed to the local listen closure, excluding conf.RequestedPort
 		var ports []ssa.Value
 		var portAt []ssa.Instruction
-		for _, f := range withAnon(fn) {
+		for _, f := range w.helpersOf(fn) {
 			w.eachInstr(f, func(in ssa.Instruction) {
 				call, ok := in.(*ssa.Call)
 				if !ok {
@@ -337,7 +337,7 @@ func runC20(c *Ctx) {
 			fn := w.Func("turn", gen, mn)
 			c.Anchor("C20.2", gen+"."+mn)
 			c.Anchor("C20.3", gen+"."+mn)
-			for _, f := range withAnon(fn) {
+			for _, f := range w.helpersOf(fn) {
 				if f.Signature.Results().Len() != 3 {
 					continue
 				}
@@ -419,7 +419,7 @@ func runC20(c *Ctx) {
 			}
 			// requested port is passed unchanged
 			okReq := false
-			for _, f := range withAnon(fn) {
+			for _, f := range w.helpersOf(fn) {
 				w.eachInstr(f, func(in ssa.Instruction) {
 					call, ok := in.(*ssa.Call)
 					if !ok {
